@@ -173,7 +173,7 @@ def gen_case(rng, idx):
 def prepare(run, quick):
     """writes the wrapper module; returns (module path, cfg text)"""
     rng = random.Random(run.seed * 7919 + 5)
-    ncases = 8 if quick else 60
+    ncases = 8 if quick else 48
     cases = [gen_case(rng, i) for i in range(ncases)]
     body = "RandCases == <<\n  " + ",\n  ".join(core.tla_expr(c) for c in cases) + "\n>>\nNoCCases == <<>>\n"
     path = core.write_module(run.work + "/RepRand_mod", "RepRand", ["Rep"], body)
